@@ -113,6 +113,10 @@ def run_ref(run, prop, ecos, caps, seeded_fn=None, extra_jobs_fn=None, shard=350
             else:
                 run.violations.append(m)
         for i in info:
+            for t in i.get("rejectedInScope", []):
+                run.extra.setdefault("in_scope_texts_rejected_by_the_parser", [])
+                if t not in run.extra["in_scope_texts_rejected_by_the_parser"] and len(run.extra["in_scope_texts_rejected_by_the_parser"]) < 200:
+                    run.extra["in_scope_texts_rejected_by_the_parser"].append(t)
             if "judged" in i:
                 judged += i["judged"]; inscope += i.get("inscope", 0)
             for d, c in i.get("knownCounts", []):
